@@ -13,7 +13,7 @@ CLAIMED = {
  "C01": ("Theorems C01_check (check status exact, any consistent bitboards), C01_pseudo, C01_moves_ok, C01_legal (the moves offered are exactly the "
          "legal moves of spec/Rules.v: castling, en passant, the four promotions, pins, check evasions), C01_nodup, C01_mate_stalemate, for every "
          "board satisfying the computable well-formedness wf_rules (proved preserved by every legal move: C03_wf_step; evaluated on every visited "
-         "position). Rules.v is coordinate-only and validated by perft. Tie: engine vs model vs Rules.v at every node of walks / probes / corpus: legal "
+         "position). Rules.v is coordinate-only; props/RulesPerft.v checks it (through the independent FEN reader) against the published perft totals of the six standard test positions. Tie: engine vs model vs Rules.v at every node of walks / probes / corpus: legal "
          "move sets with flags, check status of both colours, attacked squares.",
          TB + "Rules.v is the statement of the rules of chess (trusted, short, perft-validated); counters below 65535.",
          "Coq proof (refinement of the bitboard move generator to a mailbox rules specification) + walk correspondence"),
@@ -27,7 +27,8 @@ CLAIMED = {
          "with multiplicity), C02_wf_preserved, C02_nested (any nesting depth/width), C02_query_pure, for every well-formed board and "
          "every move satisfying the computable precondition move_okb; hypotheses evaluated on every visited position/move. Tie: engine "
          "vs model node by node on walks/probes, every legal move made+unmade and compared with the snapshot.",
-         TB + "wfb/move_okb are hypotheses of the theorems (proved preserved by play; that every generated move satisfies move_okb is evaluated, not yet proved).",
+         TB + "wfb/move_okb are hypotheses of C02_unmake_make; props/C02closed.v discharges them for generated moves from wf_rules (C01_moves_ok). props/C02search.v: the search run IN PLACE on one board "
+         "(model/SearchMut.v: make / recurse / unmake, legality probe included) returns exactly the result of the persistent-position search model and hands the board back (an interrupted root iteration leaves it one move deep: proved and witnessed).",
          "Coq proof (record-level inverse of make/unmake) + walk correspondence"),
  "C04": ("Theorems C04_make, C04_history (any interleaving of makes and take-backs, any length), C04_function/C04_transposition (path "
          "independence), C04_fen, C04_start: the incremental key equals the from-scratch key. Holds for any table. Tie: zkey, ZKey::from "
@@ -67,8 +68,10 @@ CLAIMED = {
          TB + "clock/stop are oracles; latency in milliseconds is outside the theorem.", "Coq proof over the search model with arbitrary abort oracles + correspondence + pipe grid"),
  "C10": ("Invariants over ALL reachable states of the input-thread x search-threads transition system (any command list, any schedule): one "
          "bestmove per accepted go, go never silent, refused only while searching and unstopped, stop clears and flags never re-arm, a stopped "
-         "thread exits within 5 own steps, the input thread blocks only on such a thread; refutation witnesses for the unrepaired code. Tie: 13 "
-         "catalogued interleavings forced on the real binary via guarded schedule points vs the model's run of the same schedule. PARTIAL: "
+         "thread exits within 5 own steps, the input thread blocks only on such a thread; C10_never_wedged (from every reachable state a bounded continuation "
+         "processes every command and ends every thread, with bestmoves = accepted go's), C10_stop_suffices; refutation witnesses for the unrepaired code. Tie: 13 "
+         "catalogued interleavings forced on the real binary via guarded schedule points vs the model's run of the same schedule, plus slowly played command "
+         "histories of any shape (determined interleaving) vs the model. PARTIAL: "
          "weak-memory effects of Relaxed atomics and real-time promptness are outside the model.",
          TB + "atomics modelled as sequentially consistent steps; the go check (flag load + is_finished) modelled as one step.", "Coq proof (inductive invariants of an LTS) + forced-schedule runs"),
  "C11": ("Theorems C11_contract / C11_root / C11_search for an ARBITRARY game: with caching neutralised the root score is the exact negamax "
